@@ -64,6 +64,7 @@ class NestedProcessingTransformation(PreprocessingTransformation):
         )
         nested.field_mappings = FieldMappingTracking()
         nested.state = dict(self._pipeline.state)
+        nested.vars = self._pipeline.vars  # e.g. for placeholder transformations inside the nest
         nested._apply_items(rule)
         self._pipeline.applied.extend(self._nested_pipeline.applied)
         self._pipeline.applied_ids.update(self._nested_pipeline.applied_ids)
